@@ -7,6 +7,38 @@ INV = ["StepsExact", "RecordCounts", "NeverTooMany", "NoLostJob", "LockedSeqExac
 
 def main(tier, replay=None):
     if replay:
+        import json
+        from harness import common, trace
+        from harness.checks import runner as R
+        with open(replay) as fh:
+            rp = json.load(fh)
+        run = rp.get("scheduler_run") or (rp.get("run") if isinstance(rp.get("run"), dict) and "c0" in rp.get("run", {}) else None)
+        if run:        # the real scheduler() under the scripted executor
+            S._CTX["work"] = common.tmpdir("c17r-")
+            try:
+                _i, enc, problems, _spec = R._sched_job((0, run["n"], run["workers"], run["steps"], run["c0"], run["seed"], run["fail"], run.get("idle", False)))
+                bad = []
+                if enc:
+                    out = trace.validate({(run["n"], run["workers"]): [enc]}, procs=1)
+                    bad = sorted({c for _o, _n, _w, r in out for (_t, _e, c) in r["bad"] if c in S.CLAUSES[PID]})
+            finally:
+                common.rmtree(S._CTX["work"])
+            if problems or bad:
+                print(f"VIOLATION property={PID} replay={replay}\n  {problems or bad}")
+                return 1
+            print("replay: holds")
+            return 0
+        if "script" in rp:   # a Runner.tla behaviour on the bare runner
+            problems = []
+            for _attempt in range(5):      # thread timing decides which completions the runner sees together
+                _i, problems, _out = R._runner_job((0, [tuple(a) for a in rp["script"]], rp["workers"], set(rp.get("fails", []))))
+                if problems:
+                    break
+            if problems:
+                print(f"VIOLATION property={PID} replay={replay}\n  {problems}")
+                return 1
+            print("replay: holds")
+            return 0
         return S.replay_main(PID, replay)
     sc = S.SystemCheck(PID, tier)
     q = tier == "quick"
